@@ -4,6 +4,7 @@
 #    compiles, 673 tests pass, demo fails with it and passes without it;
 # 2. runs the given checks against the seeded tree WITHOUT touching /repo: a copy of
 #    /verif/mc is pointed at the worktree (same harness code, separate target dir).
+# env: SKIP_CONFIRM=1 (skip step 1), VARIANT=small, FEATURES=m_x,m_y (build only these harness modules)
 # Prints one summary line per step; exit 0 always (read the summary).
 set -u
 SEED="$1"; WT="$2"; shift 2
@@ -52,7 +53,7 @@ if [ "${VARIANT:-default}" = "small" ]; then
 fi
 for id in "${IDS[@]}"; do
   envs=""
-  ( cd "$RUN/mc" && env $VARENV CARGO_TARGET_DIR="$RUN/target$VARSFX" cargo build --release --offline >"$RUN/build.txt" 2>&1 ) || { say "SEED $SEED: harness build failed against seeded tree (see $RUN/build.txt)"; break; }
+  ( cd "$RUN/mc" && env $VARENV CARGO_TARGET_DIR="$RUN/target$VARSFX" cargo build --release --offline ${FEATURES:+--no-default-features --features "$FEATURES"} >"$RUN/build.txt" 2>&1 ) || { say "SEED $SEED: harness build failed against seeded tree (see $RUN/build.txt)"; break; }
   VERIF_DIR="$RUN/v" timeout 3000 "$RUN/target$VARSFX/release/mc" "$id" --tier "$TIER" >"$RUN/check_$id.txt" 2>&1
   rc=$?
   sigs=$(grep -E "^  signature:" "$RUN/check_$id.txt" | sed 's/  signature: //' | tr '\n' ' ')
